@@ -2,6 +2,7 @@ package simrt
 
 import (
 	"fmt"
+	"runtime"
 	"runtime/debug"
 	"sort"
 	"strings"
@@ -34,6 +35,7 @@ type Task struct {
 	Panic   string // non-empty: the code under test panicked
 	Stack   string
 	Hits    []SharedHit // shared sites reached (capped)
+	LeakedGoroutines int // goroutines spawned by this call that were still blocked after it returned
 
 	ring    [256]int32
 	resume  chan struct{}
@@ -116,11 +118,69 @@ type Sched struct {
 	Deadlock    bool
 	Watchdog    bool
 
+	// Leaked counts goroutines of the code under test that were still blocked when every
+	// caller task had returned (they are unwound by the simulator).
+	Leaked int
+	Spawned int
+
 	cur      *Task
 	mainWake chan struct{}
 	accs     []accRec
 	raceSeen map[string]bool
 	solo     bool
+	wg       sync.WaitGroup
+	decisions uint64
+	roots    int
+}
+
+// SchedPolicy steers the scheduling decisions that are not part of an explicit plan: which
+// task continues when one ends or blocks, whether a freshly spawned goroutine runs before its
+// parent continues, and (PreemptPct) random preemption at shared sites while goroutines
+// spawned by the code under test are alive. Seed 0 is the canonical policy: parent first,
+// lowest task id first, no preemption. Procs is what runtime.GOMAXPROCS(0)/NumCPU() report.
+type SchedPolicy struct {
+	Seed       uint64
+	PreemptPct int
+	Procs      int
+}
+
+var policy *SchedPolicy
+
+// SetSchedPolicy installs (or with nil removes) the policy for subsequent simulations.
+func SetSchedPolicy(p *SchedPolicy) { policy = p }
+
+// decide draws a scheduling decision in [0, n).
+func (s *Sched) decide(n int) int {
+	if n <= 1 || policy == nil || policy.Seed == 0 {
+		return 0
+	}
+	s.decisions++
+	x := policy.Seed ^ (s.decisions * 0x9e3779b97f4a7c15)
+	return int(splitmix(&x) % uint64(n))
+}
+
+// GOMAXPROCS and NumCPU replace the runtime functions: the simulator decides what the code sees.
+func GOMAXPROCS(n int) int {
+	if active == nil || policy == nil || policy.Procs <= 0 {
+		return runtime.GOMAXPROCS(n)
+	}
+	return policy.Procs
+}
+
+func NumCPU() int {
+	if active == nil || policy == nil || policy.Procs <= 0 {
+		return runtime.NumCPU()
+	}
+	return policy.Procs
+}
+
+// Gosched is a plain scheduling point.
+func Gosched() {
+	if active == nil {
+		runtime.Gosched()
+		return
+	}
+	Yield(SiteLock)
 }
 
 var active *Sched
@@ -163,6 +223,11 @@ func Yield(id int) {
 		panic(abortSentinel{t.kill})
 	}
 	if s.solo {
+		if len(s.Tasks) > 1 && policy != nil && policy.Seed != 0 && policy.PreemptPct > 0 && (id < 0 || Sites[id].Shared) {
+			if r := s.runnable(t); len(r) > 0 && s.decide(100) < policy.PreemptPct {
+				s.switchFrom(t, r[s.decide(len(r))].ID)
+			}
+		}
 		return
 	}
 	shared := id >= 0 && Sites[id].Shared
@@ -219,7 +284,7 @@ func (s *Sched) access(t *Task, loc string, write bool, site int) {
 			continue
 		}
 		// happens-before: r happened before the current point of t iff t's clock for r.task >= r.clk
-		if t.vc[r.task] >= r.clk {
+		if r.task < len(t.vc) && t.vc[r.task] >= r.clk {
 			continue
 		}
 		key := fmt.Sprintf("%s|%s|%d|%d", r.loc, loc, r.site, site)
@@ -293,8 +358,19 @@ func (s *Sched) pickNext(from *Task) {
 			s.mainWake <- struct{}{}
 			return
 		}
-		// deadlock: unwind the blocked tasks one by one
-		s.Deadlock = true
+		// deadlock (or, when every caller task has returned, leaked goroutines):
+		// unwind the blocked tasks one by one
+		rootsDone := true
+		for _, t := range s.Tasks[:s.roots] {
+			if !t.done {
+				rootsDone = false
+			}
+		}
+		if rootsDone {
+			s.Leaked++
+		} else {
+			s.Deadlock = true
+		}
 		sort.Slice(stuck, func(i, j int) bool { return stuck[i].ID < stuck[j].ID })
 		v := stuck[0]
 		v.kill = "deadlock"
@@ -308,6 +384,8 @@ func (s *Sched) pickNext(from *Task) {
 	c := 0
 	if s.endIdx < len(s.EndChoice) {
 		c = s.EndChoice[s.endIdx]
+	} else {
+		c = s.decide(len(r))
 	}
 	s.endIdx++
 	if c < 0 || c >= len(r) {
@@ -383,7 +461,7 @@ func panicSite(stack string) string {
 func NewSched(fns []func(), budget int64, plan []Preempt) *Sched {
 	s := &Sched{mainWake: make(chan struct{}, 1), raceSeen: map[string]bool{}, InterleaveHash: 1469598103934665603}
 	for i, fn := range fns {
-		t := &Task{ID: i, Fn: fn, Budget: budget, resume: make(chan struct{}), vc: make([]int64, len(fns))}
+		t := &Task{ID: i, Fn: fn, Budget: budget, resume: make(chan struct{}, 1), vc: make([]int64, len(fns))}
 		t.vc[i] = 1
 		s.Tasks = append(s.Tasks, t)
 	}
@@ -395,6 +473,7 @@ func NewSched(fns []func(), budget int64, plan []Preempt) *Sched {
 	for _, t := range s.Tasks {
 		sort.SliceStable(t.pre, func(i, j int) bool { return t.pre[i].Step < t.pre[j].Step })
 	}
+	s.roots = len(s.Tasks)
 	return s
 }
 
@@ -409,18 +488,8 @@ func (s *Sched) Run(first int) bool {
 	}
 	active = s
 	defer func() { active = nil }()
-	var wg sync.WaitGroup
 	for _, t := range s.Tasks {
-		t := t
-		wg.Add(1)
-		go func() {
-			defer wg.Done()
-			<-t.resume
-			s.cur = t
-			t.run()
-			t.done = true
-			s.pickNext(t)
-		}()
+		s.launch(t)
 	}
 	if first < 0 || first >= len(s.Tasks) {
 		first = 0
@@ -432,8 +501,47 @@ func (s *Sched) Run(first int) bool {
 		s.Watchdog = true
 		return false
 	}
-	wg.Wait()
+	s.wg.Wait()
 	return true
+}
+
+// launch starts the (parked) goroutine of a task.
+func (s *Sched) launch(t *Task) {
+	s.wg.Add(1)
+	go func() {
+		defer s.wg.Done()
+		<-t.resume
+		s.cur = t
+		if t.kill == "" {
+			t.run()
+		}
+		t.done = true
+		s.pickNext(t)
+	}()
+}
+
+// Go replaces the go statement: under simulation the new goroutine becomes a task of the
+// running simulation; whether it runs before its parent continues is a scheduling decision.
+func Go(fn func()) {
+	s := active
+	if s == nil {
+		go fn()
+		return
+	}
+	parent := s.cur
+	t := &Task{ID: len(s.Tasks), Fn: fn, Budget: parent.Budget, resume: make(chan struct{}, 1)}
+	t.vc = make([]int64, t.ID+1)
+	copy(t.vc, parent.vc) // everything before the go statement happens before the goroutine
+	t.vc[t.ID] = 1
+	if parent.ID < len(parent.vc) {
+		parent.vc[parent.ID]++
+	}
+	s.Tasks = append(s.Tasks, t)
+	s.Spawned++
+	s.launch(t)
+	if s.decide(2) == 1 {
+		s.switchFrom(parent, t.ID)
+	}
 }
 
 // RunSolo runs fn on the calling goroutine as the single task of a
@@ -443,13 +551,41 @@ func RunSolo(fn func(), budget int64) *Task {
 	if active != nil {
 		panic("simrt: nested simulation")
 	}
-	t := &Task{ID: 0, Fn: fn, Budget: budget, vc: []int64{1}}
-	s := &Sched{Tasks: []*Task{t}, cur: t, solo: true}
+	t := &Task{ID: 0, Fn: fn, Budget: budget, vc: []int64{1}, resume: make(chan struct{}, 1)}
+	s := &Sched{Tasks: []*Task{t}, cur: t, solo: true, roots: 1, mainWake: make(chan struct{}, 1), raceSeen: map[string]bool{}}
 	active = s
 	defer func() { active = nil }()
 	t.started = true
 	t.run()
 	t.done = true
+	if len(s.Tasks) > 1 {
+		// goroutines started by the code under test: let them finish (or unwind them)
+		pending := false
+		for _, c := range s.Tasks[1:] {
+			if !c.done {
+				pending = true
+			}
+		}
+		if pending {
+			s.pickNext(t)
+			select {
+			case <-s.mainWake:
+			case <-time.After(60 * time.Second):
+				s.Watchdog = true
+				if t.Aborted == "" {
+					t.Aborted = "simulator watchdog: goroutines of the code under test did not finish"
+				}
+				return t
+			}
+		}
+		s.wg.Wait()
+		if s.Leaked > 0 && t.Aborted == "" && t.Panic == "" {
+			t.LeakedGoroutines = s.Leaked
+		}
+	}
+	if s.Deadlock && t.Aborted == "" {
+		t.Aborted = "deadlock"
+	}
 	return t
 }
 
@@ -498,7 +634,7 @@ type Mutex struct {
 
 func (m *Mutex) Lock() {
 	s := active
-	if s == nil || s.solo {
+	if s == nil {
 		m.mu.Lock()
 		return
 	}
@@ -512,7 +648,7 @@ func (m *Mutex) Lock() {
 
 func (m *Mutex) TryLock() bool {
 	s := active
-	if s == nil || s.solo {
+	if s == nil {
 		return m.mu.TryLock()
 	}
 	Yield(SiteLock)
@@ -526,7 +662,7 @@ func (m *Mutex) TryLock() bool {
 
 func (m *Mutex) Unlock() {
 	s := active
-	if s == nil || s.solo {
+	if s == nil {
 		m.mu.Unlock()
 		return
 	}
@@ -541,6 +677,24 @@ func (m *Mutex) Unlock() {
 	Yield(SiteLock)
 }
 
+// unblockChan wakes tasks blocked on the channel itself or in a select that involves it.
+func (s *Sched) unblockChan(c any) {
+	for _, t := range s.Tasks {
+		if t.blocked == c {
+			t.blocked = nil
+		} else if sw, ok := t.blocked.(*selectWait); ok {
+			for _, x := range sw.chans {
+				if x == c {
+					t.blocked = nil
+					break
+				}
+			}
+		}
+	}
+}
+
+type selectWait struct{ chans []any }
+
 // RWMutex replaces sync.RWMutex.
 type RWMutex struct {
 	mu      sync.RWMutex
@@ -552,7 +706,7 @@ type RWMutex struct {
 
 func (m *RWMutex) Lock() {
 	s := active
-	if s == nil || s.solo {
+	if s == nil {
 		m.mu.Lock()
 		return
 	}
@@ -566,7 +720,7 @@ func (m *RWMutex) Lock() {
 
 func (m *RWMutex) Unlock() {
 	s := active
-	if s == nil || s.solo {
+	if s == nil {
 		m.mu.Unlock()
 		return
 	}
@@ -583,7 +737,7 @@ func (m *RWMutex) Unlock() {
 
 func (m *RWMutex) RLock() {
 	s := active
-	if s == nil || s.solo {
+	if s == nil {
 		m.mu.RLock()
 		return
 	}
@@ -597,7 +751,7 @@ func (m *RWMutex) RLock() {
 
 func (m *RWMutex) RUnlock() {
 	s := active
-	if s == nil || s.solo {
+	if s == nil {
 		m.mu.RUnlock()
 		return
 	}
@@ -614,7 +768,7 @@ func (m *RWMutex) RUnlock() {
 
 func (m *RWMutex) TryLock() bool {
 	s := active
-	if s == nil || s.solo {
+	if s == nil {
 		return m.mu.TryLock()
 	}
 	if m.writer || m.readers > 0 {
@@ -626,7 +780,7 @@ func (m *RWMutex) TryLock() bool {
 
 func (m *RWMutex) TryRLock() bool {
 	s := active
-	if s == nil || s.solo {
+	if s == nil {
 		return m.mu.TryRLock()
 	}
 	if m.writer {
